@@ -358,6 +358,72 @@ func cmdReplayVerdict(args []string) error {
 				check("GetDNSBasicRule", p, nil, nil, c.DNS, c.DNSWinners, c.DNSCands, got, false, pv)
 			}
 		}
+		// (a') the same rules present twice (as in two lists carrying the same line): the verdict is a function of the SET
+		// of matching rules, so it is the one of the bag; the copies are placed at seeded positions
+		if nb > 0 {
+			for rep := 0; rep < 2; rep++ {
+				p := perms[nb][rnd.Intn(len(perms[nb]))]
+				sp := perms[ns][rnd.Intn(len(perms[ns]))]
+				var mr, sr []*rules.NetworkRule
+				for _, x := range p {
+					mr = append(mr, env.mainRule[c.Bag[x]-1])
+				}
+				for _, x := range p {
+					if rep == 1 && env.mainRule[c.Bag[x]-1].IsOptionEnabled(rules.OptionBadfilter) {
+						continue // second round: one $badfilter rule has to disable both copies of its target
+					}
+					twin, err := rules.NewNetworkRule(env.mainText[c.Bag[x]-1], 99)
+					if err != nil {
+						return err
+					}
+					pos := rnd.Intn(len(mr) + 1)
+					mr = append(mr[:pos], append([]*rules.NetworkRule{twin}, mr[pos:]...)...)
+				}
+				for _, x := range sp {
+					sr = append(sr, env.srcRule[c.Sb[x]-1])
+				}
+				var got *rules.NetworkRule
+				fromDoc := false
+				pv := safeCall(func() {
+					res := rules.NewMatchingResult(append([]*rules.NetworkRule{}, mr...), append([]*rules.NetworkRule{}, sr...))
+					got = res.GetBasicResult()
+					fromDoc = res.BasicRule == nil
+				})
+				check("NewMatchingResult(each rule twice)", p, sp, [][]string{textsOf(mr)}, c.Web, c.Winners, c.Cands, got, fromDoc, pv)
+				if ns == 0 {
+					pv = safeCall(func() { got = rules.GetDNSBasicRule(append([]*rules.NetworkRule{}, mr...)) })
+					check("GetDNSBasicRule(each rule twice)", p, nil, [][]string{textsOf(mr)}, c.DNS, c.DNSWinners, c.DNSCands, got, false, pv)
+				}
+				// through the engine: two lists, each with one copy of every rule
+				var l1, l2 []string
+				for _, x := range p {
+					l1 = append(l1, env.mainText[c.Bag[x]-1])
+				}
+				for _, x := range sp {
+					l1 = append(l1, env.srcText[c.Sb[x]-1])
+				}
+				for _, t := range l1 {
+					if rep == 1 && strings.Contains(t, "badfilter") {
+						continue
+					}
+					l2 = append(l2, t)
+				}
+				if len(l2) == 0 {
+					continue
+				}
+				rnd.Shuffle(len(l2), func(i, j int) { l2[i], l2[j] = l2[j], l2[i] })
+				st, err := buildStorage([][]string{l1, l2})
+				if err != nil {
+					return err
+				}
+				pv = safeCall(func() {
+					res := urlfilter.NewEngine(st).MatchRequest(newVerdictReq())
+					got = res.GetBasicResult()
+					fromDoc = res.BasicRule == nil
+				})
+				check("Engine.MatchRequest(two lists with the same rules)", p, sp, [][]string{l1, l2}, c.Web, c.Winners, c.Cands, got, fromDoc, pv)
+			}
+		}
 		// (c)-(e) engines: two seeded permutations, split into 1..3 lists
 		for rep := 0; rep < 2; rep++ {
 			p := perms[nb][rnd.Intn(len(perms[nb]))]
